@@ -1,12 +1,13 @@
 (* Property C14 - kept comments are verbatim, never invented or duplicated, and
-   stay attached.  Theorems only.  PARTIAL: the theorems cover the parser-side
-   pass that attaches comments to tree nodes (where duplication or invention
-   could arise from the line-number bookkeeping); the transformer's hoisting of
-   node comments into __comments__ and the printer's placement are tied by
-   correspondence and checked against the real API by the hunter. *)
+   stay attached.  Theorems only.  The verbatim / never-invented / never-
+   duplicated clauses are proved end to end for every text (parser, transformer,
+   printer: section "end to end" below).  PARTIAL: the placement clauses (a
+   trailing comment stays on its keyword's line, comments above an opener stay
+   above it) and "the output with comments loads to the same content" are
+   covered by correspondence and the hunter, not by theorems. *)
 From Coq Require Import Permutation.
 From MF Require Import Lib.Base Model.GrammarTypes Model.Lexer Model.LR Model.Transformer Model.Api
-  Proofs.C14 Gen.Grammar.
+  Model.PPrint Proofs.C14 Proofs.C13U Proofs.PrintU Proofs.C14U_Multiset Proofs.C14U_Trans Proofs.C14U_Print Proofs.C14U_Guard Proofs.C14U Gen.Grammar.
 
 (* [U] for every text: the comments attached to tree nodes, together with the
    comments left unattached, are a permutation of the line-indexed comment
@@ -25,7 +26,7 @@ Print Assumptions C14_attached_comments_are_a_linear_resource.
    keep only the last one (the code's own representation) *)
 Theorem C14_comment_dictionary_is_verbatim :
   forall cs line v, In (line, v) (comments_dict cs) ->
-    exists c, In c cs /\ tline c = line /\ v = strip (tval c).
+    exists c, In c cs /\ GrammarTypes.tline c = line /\ v = strip (tval c).
 Proof. exact comments_dict_from_tokens. Qed.
 Print Assumptions C14_comment_dictionary_is_verbatim.
 
@@ -37,6 +38,46 @@ Theorem C14_take_is_partition :
                  ++ map snd (filter (fun kv => negb (N.leb (fst kv) line)) cd)).
 Proof. exact take_is_partition. Qed.
 Print Assumptions C14_take_is_partition.
+
+(* ---- end to end (Proofs/C14U*.v, agent prover-c14) *)
+
+(* [U] for EVERY text and either position mode: the comment strings stored
+   anywhere in the loaded dictionary (dict-valued __comments__ entries at every
+   depth), counted with multiplicity, are a sub-multiset of the stripped texts
+   of the comment tokens of the source - nothing invented, nothing stored twice *)
+Theorem C14_loaded_comments_are_source_comments :
+  forall ip text v po,
+    parse_text the_grammar the_hook true text = Ok po -> loads ip true text = Ok v ->
+    exists rest, Permutation (cstored v ++ rest)
+                 (map (fun c => strip (tval c)) (po_comments po)).
+Proof. exact loads_comments_sub_source. Qed.
+Print Assumptions C14_loaded_comments_are_source_comments.
+
+(* [U] ... and for EVERY printer option set: the comment items dumps writes for
+   that dictionary, counted with multiplicity, are a sub-multiset of the stored
+   ones and of the source comment tokens: every comment written is the exact
+   (stripped) text of a source comment, none is written more often than it
+   occurs.  The printer guard (keys distinct, __comments__ a dict of string
+   lists) is discharged for every loaded dictionary. *)
+Theorem C14_dumped_comments_are_source_comments :
+  forall ip text v po o s v',
+    parse_text the_grammar the_hook true text = Ok po -> loads ip true text = Ok v ->
+    pprint o v = Ok (s, v') ->
+    exists T, t_pprint (quote o) (separate_complex_types o) v = Ok (T, v')
+              /\ s = render o (untrace T)
+              /\ (exists rest, Permutation (written T ++ rest) (pstored v))
+              /\ (exists rest, Permutation (written T ++ rest)
+                     (map VStr (map (fun c => strip (tval c)) (po_comments po)))).
+Proof. exact dumped_comments_are_source_comments. Qed.
+Print Assumptions C14_dumped_comments_are_source_comments.
+
+(* [R] a __comments__ entry is not always a dict: CONFIG / METADATA keys are free
+   text (MAP CONFIG "__comments__" "x" END); the theorems above therefore speak
+   of the dict-valued entries *)
+Theorem C14_comments_entry_is_always_a_dict_refuted :
+  exists text v, loads false true text = Ok v /\ comments_entries_are_dicts v = false.
+Proof. exact comments_entry_is_always_a_dict_refuted. Qed.
+Print Assumptions C14_comments_entry_is_always_a_dict_refuted.
 
 (* non-vacuity: trailing and block comments end up in the loaded dictionary *)
 Example C14_example :
